@@ -213,6 +213,9 @@ fn gen_case(r: &mut Rng, id: u64, thorough: bool, raw: bool) -> Value {
     let mut thumbs: Vec<String> = vec![];
     for k in &keys { for t in k["thumbs"].as_array().unwrap() { thumbs.push(t.as_str().unwrap().to_string()); } }
     let note = |w: &mut Vec<Value>, t: &Value| { if let Some(a) = t.as_array() { w.extend(a.iter().cloned()); } };
+    // names already used by an insert: reads, updates and removals mostly aim at them
+    let mut used: Vec<&str> = vec![];
+    let aim = |r: &mut Rng, used: &Vec<&'static str>, names: &[&'static str]| -> &'static str { if !used.is_empty() && r.chance(3, 4) { *r.pick(used) } else { *r.pick(names) } };
     for i in 0..nops {
         let front = i < 3;
         let pick = if front { 0 } else { r.below(20) };
@@ -220,15 +223,17 @@ fn gen_case(r: &mut Rng, id: u64, thorough: bool, raw: bool) -> Value {
             0..=3 => {
                 let t = utags(r);
                 note(&mut written, &t);
-                json!({"op": "insert_key", "n": *r.pick(names), "key": r.below(keys.len()), "meta": gen_meta(r), "ref": gen_ref(r), "t": t, "e": gen_expiry(r, false)})
+                let nm = *r.pick(names);
+                used.push(nm);
+                json!({"op": "insert_key", "n": nm, "key": r.below(keys.len()), "meta": gen_meta(r), "ref": gen_ref(r), "t": t, "e": gen_expiry(r, false)})
             }
             4..=6 => {
                 let t = utags(r);
                 note(&mut written, &t);
-                json!({"op": "update_key", "n": *r.pick(names), "meta": gen_meta(r), "t": t, "e": gen_expiry(r, true)})
+                json!({"op": "update_key", "n": aim(r, &used, names), "meta": gen_meta(r), "t": t, "e": gen_expiry(r, true)})
             }
-            7 | 8 => json!({"op": "remove_key", "n": *r.pick(names)}),
-            9..=11 => json!({"op": "fetch_key", "n": *r.pick(names)}),
+            7 | 8 => json!({"op": "remove_key", "n": aim(r, &used, names)}),
+            9..=11 => json!({"op": "fetch_key", "n": aim(r, &used, names)}),
             12 if raw => {
                 // a Kms row written behind the key API
                 let data = match r.below(4) { 0 => Value::Null, 1 => json!(hex::encode(b"junk")), _ => keys[r.below(keys.len())]["jwk"].clone() };
@@ -293,7 +298,7 @@ fn directed(id: u64, r: &mut Rng) -> Vec<Value> {
 }
 
 pub fn gen(r: &mut Rng, thorough: bool, count: Option<usize>) -> Vec<Value> {
-    let n = count.unwrap_or(if thorough { 4000 } else { 160 });
+    let n = count.unwrap_or(if thorough { 12000 } else { 480 });
     let mut out = vec![];
     let mut rr = r.fork();
     out.extend(directed(0, &mut rr));
